@@ -1,2 +1,3 @@
+pub mod ast;
 pub mod model;
 pub mod prog;
